@@ -730,6 +730,7 @@ def module_call(I, name: str, pos: list, kw: dict, st: State) -> Iterator[tuple[
         if isinstance(o, SObj):
             n = SObj(o.cls, dict(o.fields))
             n.fields.update(kw)
+            n._orig = getattr(o, "_orig", o.name)  # provenance of dataclasses.replace copies
             st.trace.append(("new", n.name, o.cls))
             yield st, n
             return
